@@ -757,11 +757,11 @@ class Lexer(object):
     def t_STRING(self, token):
         return token
 
-    # XXX: <ZWNJ> <ZWJ> ?
+    # <ZWNJ> and <ZWJ> are identifier parts too (7.6)
     identifier_start = r'(?:' + r'[a-zA-Z_$]' + r'|' + LETTER + r')+'
     identifier_part = (
-        r'(?:' + COMBINING_MARK + r'|' + r'[0-9a-zA-Z_$]' + r'|' + LETTER +
-        r'|' + DIGIT + r'|' + CONNECTOR_PUNCTUATION + r')*'
+        r'(?:' + COMBINING_MARK + r'|' + r'[0-9a-zA-Z_$\u200c\u200d]' + r'|' +
+        LETTER + r'|' + DIGIT + r'|' + CONNECTOR_PUNCTUATION + r')*'
     )
     identifier = identifier_start + identifier_part
 
@@ -771,7 +771,8 @@ class Lexer(object):
     # parenthesis; anywhere else they are plain identifiers.
     accessor = (
         r'(?=(?:[\s\ufeff]+(?:' + identifier + r'|' + t_NUMBER +
-        r')|[\s\ufeff]*' + string + r')[\s\ufeff]*\()'
+        r')|[\s\ufeff]*(?:' + string + r'|\.[0-9]+(?:[eE][+-]?[0-9]+)?' +
+        r'))[\s\ufeff]*\()'
     )
 
     getprop = r'get' + accessor
